@@ -524,8 +524,21 @@ def loop_text_forms(ctx):
             ctx.viol(key, msg, {"klass": "loop-text", "sheets_md": common.sheets_to_md(sheets)[:2500], "sheets": {n: [list(h), r] for n, (h, r) in sheets.items()}})
 
 
+
+def locale_children(ctx):
+    """Author text in many scripts, converted and written to a file by a child process under the C locale: the document is UTF-8 whatever the locale."""
+    from .. import localechild
+    md = ("| survey |\n| | type | name | label | hint | constraint | constraint_message |\n"
+          "| | text | q1 | \u00c2ge \u2014 \u5e74\u9f62 \U0001F600 | \u041e\u0448\u0438\u0431\u043a\u0430 | . != 'z' | \u0645\u0631\u062d\u0628\u0627 \u00e9 |\n"
+          "| | select_one l1 | s1 | W\u00e4hle | | | |\n| choices |\n| | list_name | name | label | r\u00e9gion |\n| | l1 | a | \u00c4 \u05d0 | \u00eele |\n"
+          "| settings |\n| | form_title |\n| | T\u00edtulo \u00fcn\u00ef |\n")
+    localechild.judge(ctx, md, "texts", "locale")
+
+
 def run_shard(ctx):
     loop_text_forms(ctx)
+    if ctx.shard == 0:
+        locale_children(ctx)
     from ..hooks import counters, install_outval_hook
     install_outval_hook()
     pl = plan(ctx.tier, ctx.seed)
@@ -545,6 +558,9 @@ def run_shard(ctx):
 
 def replay(w):
     def chk(ctx, wit):
+        if wit.get("klass") == "locale":
+            locale_children(ctx)
+            return
         if wit.get("klass") == "loop-text":
             loop_text_forms(ctx)  # the family is small and deterministic: run it whole
             return
